@@ -45,10 +45,15 @@ theorem pushDefaultK_PX : ∀ (b : B) (k : Nat) (b' : B), pushDefaultK b k = .ok
     cases h2
     simp only [PX] at hp ⊢
     exact iter_dup_BytesPX k v v' offs offs' ty data h1 hp
-  | .bytesView p ty v views buf, k, b', h, _ => by
+  | .bytesView p ty v views buf, k, b', h, hp => by
     simp only [pushDefaultK] at h
-    obtain ⟨⟨v', views'⟩, _, h2⟩ := (bind_ok _ _ _).1 h
-    cases h2; simp only [PX]
+    obtain ⟨⟨v', views'⟩, h1, h2⟩ := (bind_ok _ _ _).1 h
+    cases h2
+    simp only [PX] at hp ⊢
+    refine iter_inv (fun (s : Validity × List Nat) => ViewPX ty s.2 buf) _ ?_ k (v, views) (v', views') h1 hp
+    intro a a' ha hpa
+    cases ha
+    exact ViewPX_default hpa
   | .fixedSizeBinary p n len v buf cur, k, b', h, _ => by
     simp only [pushDefaultK] at h
     obtain ⟨⟨len', v', buf'⟩, _, h2⟩ := (bind_ok _ _ _).1 h
@@ -121,10 +126,12 @@ theorem pushNone_PX : ∀ (b : B) (b' : B), pushNone b = .ok b' → PX b → PX 
     cases h4
     simp only [PX] at hp ⊢
     exact BytesPX_dup hp h3
-  | .bytesView p ty v views buf, b', h, _ => by
+  | .bytesView p ty v views buf, b', h, hp => by
     simp only [pushNone, ctx_ok] at h
     obtain ⟨v', _, h2⟩ := (bind_ok _ _ _).1 h
-    cases h2; simp only [PX]
+    cases h2
+    simp only [PX] at hp ⊢
+    exact ViewPX_default hp
   | .fixedSizeBinary p n len v buf cur, b', h, _ => by
     simp only [pushNone, ctx_ok] at h
     obtain ⟨v', _, h2⟩ := (bind_ok _ _ _).1 h
@@ -208,11 +215,19 @@ theorem pushScalar_PX (ext : Ext) : ∀ (b : B) (x : SVal) (b' : B), pushScalar 
     split at hbs
     · cases hbs; exact Lemmas.Utf8.validUtf8_strBytes _
     · simp [notSupported, fail] at hbs
-  | .bytesView p ty v views buf, x, b', h, _ => by
+  | .bytesView p ty v views buf, x, b', h, hp => by
     simp only [pushScalar] at h
-    obtain ⟨bs, _, h2⟩ := (bind_ok _ _ _).1 h
+    obtain ⟨bs, hbs, h2⟩ := (bind_ok _ _ _).1 h
     obtain ⟨v', _, h4⟩ := (bind_ok _ _ _).1 h2
-    cases h4; simp only [PX]
+    cases h4
+    simp only [PX] at hp ⊢
+    refine ViewPX_push hp ?_
+    intro hty
+    subst hty
+    simp only [show (ViewTy.utf8View == ViewTy.utf8View) = true from rfl, if_true] at hbs
+    split at hbs
+    · cases hbs; exact Lemmas.Utf8.validUtf8_strBytes _
+    · simp [notSupported, fail] at hbs
   | .fixedSizeBinary p n len v buf cur, x, b', h, _ => by
     unfold pushScalar at h
     split at h
